@@ -698,6 +698,7 @@ class Extractor:
         def subst(txt):
             return re.sub(r'%(\d)', lambda m: pnames[int(m.group(1)) - 1] if int(m.group(1)) <= len(pnames) else m.group(0), txt)
         self._subst = subst
+        self._pnames = pnames
         external = path in pol.external
         edits = self.common_edits(ctx, toks, it.start, it.end)
         # visibility
@@ -909,6 +910,43 @@ class Extractor:
                         edits.append(Edit(st_start, st_start, block, ('inj', 'proof', p.src, 'proof')))
                     else:
                         edits.append(Edit(st_end, st_end, block, ('inj', 'proof', p.src, 'proof')))
+        # F5 allocation bound: a ghost assertion before every statement that allocates a length taken from a variable
+        size_name = next((nm for nm in getattr(self, '_pnames', []) if nm in ('size', '_size')), None)
+        k = lo
+        nalloc = 0
+        while k < hi:
+            t = toks[k]
+            expr = None
+            if t.text == 'with_capacity' and toks[k + 1].text == '(' and toks[k - 1].text == '::':
+                c = match_close(toks, k + 1)
+                expr = src[toks[k + 2].start:toks[c - 1].end] if c > k + 2 else None
+            elif t.text == 'reserve' and toks[k - 1].text == '.' and toks[k + 1].text == '(':
+                c = match_close(toks, k + 1)
+                expr = src[toks[k + 2].start:toks[c - 1].end] if c > k + 2 else None
+            elif t.text == 'vec' and toks[k + 1].text == '!' and toks[k + 2].text == '[':
+                c = match_close(toks, k + 2)
+                semi = next((j for j in range(k + 3, c) if toks[j].text == ';'), None)
+                if semi is not None and c > semi + 1:
+                    expr = src[toks[semi + 1].start:toks[c - 1].end]
+            if expr is not None and not re.fullmatch(r'[0-9_]+', expr.strip()):
+                # statement start: after the previous `;`, `{` or `}`
+                j = k
+                depth = 0
+                while j > lo:
+                    tj = toks[j - 1]
+                    if tj.text == '}' and depth == 0: break
+                    if tj.kind == 'close': depth += 1
+                    elif tj.kind == 'open':
+                        if depth == 0: break
+                        depth -= 1
+                    elif tj.text == ';' and depth == 0: break
+                    j -= 1
+                nalloc += 1
+                e2 = re.sub(r'\s+as\s+(usize|_)\s*$', '', self.strip_paths_text(expr).strip())
+                txt = '\n proof { assert(alloc_bounded((%s) as int, %s)); }\n' % (e2, ('%s as int' % size_name) if size_name else '0int')
+                edits.append(Edit(toks[j].start, toks[j].start, txt, ('inj', 'C08.alloc-bound', 'F5 site %d of %s' % (nalloc, path), 'alloc')))
+                self.report['alloc_sites'].append({'fn': path, 'file': relfile, 'line': t.line, 'expr': expr.strip(), 'bounded_by': size_name or 'constant'})
+            k += 1
         # R10 closure contracts: `|n| EXPR` -> `|n: T| -> (cr: U) requires .. ensures .. { EXPR }` (body text untouched)
         cspecs = {}
         for c in contracts:
